@@ -95,7 +95,8 @@ func (pass *DisjunctionOfConstantsToEnum) processDisjunction(_ *Visitor, _ *ast.
 					return false
 				}
 
-				identifiedMembers = append(identifiedMembers, member)
+				// the new enum gets its own members: the enum referred to stays as it is
+				identifiedMembers = append(identifiedMembers, member.DeepCopy())
 			}
 
 			return true
